@@ -712,6 +712,14 @@ func (c *compiler) compile(tok *token) []instruction {
 		res = append(res, instruction{Code: codeReturn, A: reg(len(tok.Tokens))})
 	case "call":
 		const callName, callArguments, callReturns = 0, 1, 2
+		if name := tok.Tokens[callName]; name.Symbol == "." && len(tok.Tokens[callArguments].Tokens) > 0 && hasCall(name.Tokens[0]) {
+			// pop().Sub(pop()): Go evaluates the receiver before the arguments. It waits in a hidden slot meanwhile.
+			recv := tok.Pos.String() + "#recv"
+			res = append(res, c.compile(name.Tokens[0])...)
+			res = append(res, instruction{Code: codeLocalSet, A: reg(c.Locals.Index(recv)), B: 1})
+			method := &token{Pos: name.Pos, Symbol: name.Symbol, Text: name.Text, Tokens: []*token{{Pos: name.Tokens[0].Pos, Symbol: "(name)", Text: recv}, name.Tokens[1]}}
+			tok = &token{Pos: tok.Pos, Symbol: tok.Symbol, Text: tok.Text, Tokens: append([]*token{method}, tok.Tokens[1:]...)}
+		}
 		res = append(res, c.compileAll(tok.Tokens[callArguments].Tokens)...)
 		if slices.Contains([]string{"byte", "uint8", "int8", "int", "int32", "rune", "uint32", "uint", "int64", "uint64", "int16", "uint16", "float64", "string", "[]"}, tok.Tokens[callName].Symbol) {
 			res = append(res, instruction{Code: codeConvert, A: reg(convMap[tok.Tokens[callName].Symbol])})
